@@ -2811,3 +2811,21 @@ grep --extended-regexp "PATTERNS are extended regular expressions";
         assert!(teq(e, expected_expr_id, &arena));
     }
 }
+
+#[cfg(feature = "verif")]
+pub mod verif_hooks {
+    use super::*;
+
+    pub fn expr_span(e: &Expr) -> HumanSpan {
+        *e.get_span()
+    }
+
+    /// (name, name span, optional (shell, shell span), right-hand side)
+    pub fn defn_parts(d: &NontermDefn) -> (Ustr, HumanSpan, Option<(Ustr, HumanSpan)>, ExprId) {
+        (d.lhs_name, d.lhs_span, d.shell, d.rhs_expr_id)
+    }
+
+    pub fn shell_from_str(shell: &str, span: HumanSpan) -> Result<Shell> {
+        Shell::from_str(shell, span)
+    }
+}
